@@ -3,7 +3,7 @@
   MS ADPCM, on the bit-exact encoder model of SfModel/AdpcmEnc.lean, AdpcmFile.lean: the generic block-writer theorems of
   SfProps/C07Block.lean instantiated with the REAL encoders (step index / predictor carried across blocks, the `samples` buffer
   as each encode call leaves it).  Property theorems only; helpers in SfProofs/AdpcmEnc.lean, SfProofs/BlockWriter.lean.
-  -- properties: C02 C04 C05 C07
+  -- properties: C02 C04 C05 C06 C07
 
   * `adpcm_write_is_fold`        any sequence of write calls of any caller types (4096-short staging for int / float / double,
                                   none for short), 1 or 2 channels, is the per-frame fold `pushFrame` over the converted frames
@@ -21,6 +21,8 @@
                                   (incl. the products that wrap a C int) is a legal geometry
   * `adpcm_written_stream`       what a re-open reads = the decoders of SfModel/Adpcm.lean on the encoders' blocks; with
                                   `adpcm_written_stream_partition`: C06's stream of a library-written file is a function of the shorts
+  * `ima_decoder_tracks_encoder`, `ima_decoder_run_tracks`, `ima_wav_mono_roundtrip`  the decoders of SfModel/Adpcm.lean on the
+                                  encoder's codes reproduce the encoder's reconstruction (step, run, WAV mono block)
   * `adpcm_refused_seek_clean`   a refused sf_seek on a writing handle changes nothing (`adpcm_refused_seek_old_rule`: the rule
                                   before the repair of KF-IMA-WAV-SEEK-WRITE), `adpcm_write_seek_results`
   * encoder invariants (for EVERY input): `ima_step_in_range` (code < 16, predictor a short, step index in 0…88),
@@ -29,6 +31,7 @@
     `ms_table_indices_safe`
 -/
 import SfProofs.AdpcmEnc
+import SfProofs.AdpcmRound
 import SfProps.C07Block
 namespace Sf.C07Adpcm
 open Sf Sf.Adpcm Sf.AdpcmEnc Sf.AdpcmEnc.Proofs Sf.Block Sf.Block.Proofs Sf.C07Block Sf.Generated
@@ -496,5 +499,33 @@ theorem adpcm_int_narrowing (cv : Conv) (x r : Int) (hr0 : 0 ≤ r) (hr1 : r < 6
   omega
 
 example : toCodec {} .s32 (-3 * 65536 + 0x8001) = -3 ∧ toCodec {} .s32 (-1) = -1 := by decide
+
+/-! ## the decoders track the encoder -/
+
+/-- **one sample**: fed the code the encoder emitted, the decoder's update (the same in `wavlike_ima_decode_block` and
+    `aiff_ima_decode_block`) lands on the encoder's new predictor and step index; the predictor it stores is a `short` -/
+theorem ima_decoder_tracks_encoder (c : Ch) (h0 : 0 ≤ c.idx) (h1 : c.idx ≤ 88) (x : Int) :
+    clamp16 (c.prev + imaDiff (imaStepSize c.idx) (imaStep c x).2) = (imaStep c x).1.prev ∧
+    clampImaStepIndex (wrapS 16 (c.idx + imaIndxAdjust (imaStep c x).2)) = (imaStep c x).1.idx ∧
+    wrapS 16 (imaStep c x).1.prev = (imaStep c x).1.prev := ima_decoder_step c ⟨h0, h1⟩ x
+
+/-- **a run of one channel**: the decode loop started from the encoder's state reproduces the encoder's reconstruction
+    (`imaRecon`: the predictor after every sample) for ANY samples.  (In the AIFF layout the block header keeps only the top
+    9 bits of the predictor, so a decoder of the FILE starts a block from the truncated value; in the WAV layout the header
+    holds the first sample itself.) -/
+theorem ima_decoder_run_tracks (xs : List Int) (c : Ch) (h0 : 0 ≤ c.idx) (h1 : c.idx ≤ 88) :
+    aiffDecodeLoop (imaRun c xs).2 c.prev c.idx = imaRecon c xs := ima_decoder_run xs c ⟨h0, h1⟩
+
+/-- **decode (encode block)**, WAV / W64 layout, one channel, every block size 4(m+1), every carried step index, every buffer
+    of shorts: `wavlike_ima_decode_block` on the block `wavlike_ima_encode_block` made = the first sample verbatim, then the
+    encoder's own reconstruction -/
+theorem ima_wav_mono_roundtrip (m : Nat) (st : Ch × Ch) (h0 : 0 ≤ st.1.idx) (h1 : st.1.idx ≤ 88) (buf : List Int)
+    (hb : buf.length = 8 * m + 1) (hs0 : -32768 ≤ buf.getD 0 0) (hs1 : buf.getD 0 0 ≤ 32767) :
+    imaWavDecodeBlock 1 (8 * m + 1) (imaWavEncodeBlock 1 (8 * m + 1) st buf).2.1 =
+      buf.getD 0 0 :: imaRecon ⟨buf.getD 0 0, st.1.idx⟩ (buf.drop 1) :=
+  ima_wav_mono_decode_encode m st ⟨h0, h1⟩ buf hb hs0 hs1
+
+example : imaWavDecodeBlock 1 9 (imaWavEncodeBlock 1 9 ({}, {}) [100, 200, -300, 400, 32767, -32768, 0, 1, 2]).2.1 =
+    [100, 111, 81, 144, 280, -13, 29, -9, 25] := by decide
 
 end Sf.C07Adpcm
